@@ -14,6 +14,51 @@ func vecBounds(tier string) mergeBounds {
 	return mergeBounds{maxLen1: 3, modes: []uint32{1026}, depth2: true, d2Menu: []int{0, 1, 2, 3, 4, 5, 6, 7}, depth3: true, fullDrops: true}
 }
 
+// genVecBigMerges: merges whose surviving vector count of field v is 999..1002 and
+// 1500 - on both sides of the exact/clustered class boundary (1000), reached through
+// inputs and through drops, inputs in memory and re-opened, incl. a second merge of a
+// result sitting exactly at the boundary.
+func genVecBigMerges(tier string, emit func(enum.MergeCase)) {
+	mk := func(ins []enum.Expr, drops [][]int) enum.Expr {
+		ok := make([]bool, len(ins))
+		for i := range drops {
+			ok[i] = drops[i] != nil
+		}
+		return enum.Expr{In: ins, Drops: drops, DropOK: ok}
+	}
+	for _, opened := range []bool{false, true} {
+		L := func(i int) enum.Expr { return enum.L(i, opened) }
+		at := mk([]enum.Expr{L(0), L(1)}, [][]int{nil, nil}) // exactly 1000
+		es := []enum.Expr{
+			at,
+			mk([]enum.Expr{L(1), L(0)}, [][]int{{7}, nil}),            // 999
+			mk([]enum.Expr{L(0), L(1), L(3)}, [][]int{nil, {0}, nil}), // 1001
+			mk([]enum.Expr{L(0), L(3), L(1)}, [][]int{nil, nil, nil}), // 1002
+			mk([]enum.Expr{L(2)}, [][]int{{1000}}),                    // 1001 - 1 = 1000
+			mk([]enum.Expr{L(2)}, [][]int{{0, 500}}),                  // 999: clustered input -> exact class
+			mk([]enum.Expr{L(2), L(0)}, [][]int{nil, {}}),             // 1501
+			mk([]enum.Expr{at}, [][]int{{3}}),                         // second merge: 1000 -> 999
+			mk([]enum.Expr{at, L(3)}, [][]int{{0, 999}, nil}),         // second merge: 998 + 2 = 1000
+		}
+		for _, e := range es {
+			emit(enum.MergeCase{Menu: "vecbig", Mode: 1026, E: e})
+		}
+		if tier == "quick" {
+			continue
+		}
+		for k := 0; k <= 4; k++ { // every survivor count 996..1000 of one pair, 1001-k of the single input
+			var d []int
+			for i := 0; i < k; i++ {
+				d = append(d, i*41)
+			}
+			if k > 0 {
+				emit(enum.MergeCase{Menu: "vecbig", Mode: 1026, E: mk([]enum.Expr{L(0), L(1)}, [][]int{d, nil})})
+			}
+			emit(enum.MergeCase{Menu: "vecbig", Mode: 1026, E: mk([]enum.Expr{L(2)}, [][]int{append([]int{}, d...)})})
+		}
+	}
+}
+
 func init() {
 	run.Register(&run.Def{
 		ID:          "C15",
@@ -27,6 +72,7 @@ func init() {
 		New: func() interface{} { return &enum.MergeCase{} },
 		Gen: func(tier string, emit func(interface{})) {
 			genMerges("vec", vecBounds(tier), func(c enum.MergeCase) { emit(c) })
+			genVecBigMerges(tier, func(c enum.MergeCase) { emit(c) })
 		},
 		Run: func(ci interface{}, a *run.Acc) {
 			runMerge("C15")(ci, a)
